@@ -135,9 +135,18 @@ int disasm_propeller2(
       need_effect = 2;
     }
 
-    if (table_propeller2[n].wc == 0) { wc = 0; }
-    if (table_propeller2[n].wz == 0) { wz = 0; }
-    if (table_propeller2[n].wcz == 0) { wcz = 0; }
+    // Only the effect bits this instruction has (bit 19 of rdpin / rqpin
+    // is part of the opcode, not wz).
+    wc = ((opcode >> 20) & 1) & table_propeller2[n].wc;
+    wz = ((opcode >> 19) & 1) & table_propeller2[n].wz;
+    wcz = 0;
+
+    if (((opcode >> 19) & 3) == 3 && table_propeller2[n].wcz == 1)
+    {
+      wc = 0;
+      wz = 0;
+      wcz = 1;
+    }
     if (wc == 0 && wz == 0 && wcz == 0) { need_effect = 0; }
 
     int t;
